@@ -127,6 +127,9 @@ impl Report {
     }
 }
 
+/// every slice is explored twice, with and without a log listener (C01 switches listening itself and turns this off)
+pub static SECOND_PASS: std::sync::atomic::AtomicBool = std::sync::atomic::AtomicBool::new(true);
+
 /// Parallel map-reduce over `0..n` in contiguous slices; slice reports are merged in index order.
 pub fn par_slices<F>(n: usize, slices: usize, f: F) -> Report
 where
@@ -140,7 +143,28 @@ where
         .map(|i| {
             let lo = (i * per).min(n);
             let hi = ((i + 1) * per).min(n);
-            f(lo..hi)
+            let first = f(lo..hi);
+            if !SECOND_PASS.load(std::sync::atomic::Ordering::Relaxed) {
+                return first;
+            }
+            // the same inputs again with nobody listening to the log: arguments of log statements are evaluated only
+            // for a listener, so behaviour placed in one differs between the two environments
+            crate::logsink::listen(false);
+            let second = f(lo..hi);
+            crate::logsink::listen(true);
+            let mut first = first;
+            first.count("evaluations_repeated_without_a_log_listener", second.evaluations);
+            for (k, d) in second.devs {
+                let k = if first.devs.contains_key(&k) { k } else { format!("{k} (without a log listener)") };
+                match first.devs.get_mut(&k) {
+                    Some(e) => e.count += d.count,
+                    None => {
+                        first.devs.insert(k, d);
+                    }
+                }
+            }
+            first.machinery_errors.extend(second.machinery_errors);
+            first
         })
         .collect();
     parts.into_iter().fold(Report::new(), |a, b| a.merge(b))
